@@ -409,6 +409,14 @@ def args_parse(st, fields, data):
                 else:
                     values[name] = k        # not UTF-8: the raw octets
             advance(total)
+        elif wire_type == 'timestamp':
+            a = peek(st, rest, 8)
+            if a is None:
+                return None
+            ts = sym.I(uint(a))
+            conds.append(dt_representable(ts))
+            values[name] = sym.SOpaque('datetime_aware', z3.If(ts <= 0xFFFFFFFF, dt_of_seconds(ts), dt_of_millis(ts)))
+            advance(8)
         elif wire_type == 'table':
             r = parse_table(st, rest)
             if r is None:
@@ -423,3 +431,38 @@ def args_parse(st, fields, data):
             raise EngineError('args_parse: %s' % wire_type)
     end_bits()
     return values, box['consumed'], conj(*conds)
+
+
+# ---------------------------------------------------------------- content properties (AMQP 0-9-1 4.2.6.1)
+prop_chunk = z3.Function('prop_chunk', z3.IntSort(), Obj, sym.BytesS)   # octets of property j of property set `ident`
+
+
+def props_flags(present, bits):
+    """Property flags: first property in the most significant bit (15), down to bit 2."""
+    from pyvc.dsl import _t
+    total = 0
+    terms = []
+    for p, bit in zip(present, bits):
+        p = _t(p)
+        if p is True:
+            total += 1 << bit
+        elif p is not False:
+            terms.append(z3.If(p, 1 << bit, 0))
+    if not terms:
+        return total
+    return mk_int(z3.Sum([z3.IntVal(total)] + terms))
+
+
+def props_chunks(st, ident, present, types, values, legacy, first=0, last=None):
+    """One conditional chunk per property: its encoding when present, nothing otherwise."""
+    out = []
+    for j, (p, t, v) in enumerate(zip(present, types, values)):
+        if j < first or (last is not None and j >= last):
+            continue
+        out.append(st.cond_chunk(prop_chunk(z3.IntVal(j), ident), p if isinstance(p, bool) else sym.B(p),
+                                 (lambda t=t, v=v: field_bytes(st, t, v, legacy))))
+    return out
+
+
+def props_wire(st, ident, present, bits, types, values, legacy):
+    return cat(st, be(st, 2, props_flags(present, bits)), SBytes(props_chunks(st, ident, present, types, values, legacy)))
